@@ -581,6 +581,29 @@ inline Scene gen_scene(const GenOpts &o) {
   return sc;
 }
 
+// The library drops a request whose transformed extents (request rectangle grown by one pixel, corner by corner) leave the
+// range it can represent, or whose homogeneous coordinate changes sign ("dropped or clamped", C04).  Harnesses that
+// compare a transformed image with something that is not transformed (a solid colour, a reference model) are only
+// meaningful inside that domain.  The bound used here (30000 pixels) is well inside the library's (32767).
+inline bool transform_in_domain(const SImg &s, int x0, int y0, int w, int h) {
+  if (!s.has_transform || s.m.size() != 9) return true;
+  typedef __int128 i128;
+  int sgn = 0;
+  for (int cy = 0; cy <= 1; cy++)
+    for (int cx = 0; cx <= 1; cx++) {
+      int64_t vx = (int64_t)(x0 - 1 + cx * (w + 2)) << 16, vy = (int64_t)(y0 - 1 + cy * (h + 2)) << 16;
+      i128 X = (i128)s.m[0] * vx + (i128)s.m[1] * vy + (i128)s.m[2] * 65536, Y = (i128)s.m[3] * vx + (i128)s.m[4] * vy + (i128)s.m[5] * 65536,
+           W = (i128)s.m[6] * vx + (i128)s.m[7] * vy + (i128)s.m[8] * 65536;
+      if (W == 0) return false;
+      int sg = W > 0 ? 1 : -1;
+      if (sgn && sg != sgn) return false;
+      sgn = sg;
+      i128 lim = (W < 0 ? -W : W) * 30000;
+      if ((X < 0 ? -X : X) >= lim || (Y < 0 ? -Y : Y) >= lim) return false;
+    }
+  return true;
+}
+
 // For a scale a (16.16) along one axis and a request of n pixels whose source origin is `first`: the image size and the
 // translation t that put every sample a*(first + k + 1/2) + t, k = 0..n-1, together with its bilinear neighbours inside the
 // image ("cover")
